@@ -492,6 +492,12 @@ def do_eval(s, ref, op, world, step):
         ok = True
         if s.kind in ('loglik', 'controller') and which == 'll':
             ok = (not is_exc(a)) and a == -np.inf
+            if not ok and not is_exc(a) and not is_exc(b) and np.isscalar(
+                    b) and not np.isfinite(b) and not np.isfinite(a):
+                # the point is outside the numerical range anyway (another
+                # individual's term is nan without any fault): -inf + nan
+                world.probe('fault_at_non_finite_point')
+                ok = True
         elif s.kind == 'controller' and which == 's1':
             ok = (not is_exc(a)) and not np.isfinite(a[0])
         elif s.kind == 'loglik' and which == 's1':
@@ -529,6 +535,15 @@ def do_eval(s, ref, op, world, step):
             a, b = a[0], b[0]
     if which in ('sample', 'sample_df') and not is_exc(a) and not is_exc(b):
         same = identical(a, b)
+    elif (which == 's1' and isinstance(a, tuple) and isinstance(b, tuple)
+            and len(a) == 2 and len(b) == 2 and np.isscalar(a[0])
+            and np.isscalar(b[0]) and np.isfinite(a[0])
+            and np.isfinite(b[0])):
+        # a gradient is a sum of terms of the size of the score: its
+        # absolute accuracy scales with the score (a score of -3e6 with a
+        # derivative of 1e-9 is a derivative of zero)
+        gtol = dict(tol, atol=tol['atol'] * max(1.0, abs(a[0]), abs(b[0])))
+        same = close(a[0], b[0], **tol) and close(a[1], b[1], **gtol)
     else:
         same = close(a, b, **tol)
     if not same:
@@ -797,6 +812,10 @@ def generate(rng, index, tier):
     evals = list(subj.evals)
     p_eval = rng.uniform(0.3, 0.7)
     shadow_fixed = set()
+    pending_release = None
+    n_err_last = 0
+    if kind in ('loglik', 'pred') and len(recipe['errors']) > 1:
+        n_err_last = zoo.n_error_params(recipe['errors'][-1]['cls'])
     shared_cov = None
     has_hetero = kind == 'pop' and '"H"' in json.dumps(recipe['pop'])
     want_sens = False
@@ -866,6 +885,22 @@ def generate(rng, index, tier):
                 ops.append({'op': 'fix', 'set': [
                     [a, None], [b, round(rng.uniform(0.2, 2.0), 3)]]})
                 want_sens = True
+                continue
+            if pending_release is not None:
+                # a call that only releases (every value None)
+                ops.append({'op': 'fix', 'set': [[pending_release, None]]})
+                shadow_fixed.discard(pending_release)
+                pending_release = None
+                want_sens = rng.random() < 0.5
+                continue
+            if mode < 0.45 and kind in ('loglik', 'pred') and not \
+                    shadow_fixed and n_err_last:
+                # only one error parameter of the LAST output is fixed ...
+                i = n - 1 - rng.randrange(n_err_last)
+                ops.append({'op': 'fix', 'set': [
+                    [i, round(rng.uniform(0.2, 2.0), 3)]]})
+                shadow_fixed.add(i)
+                pending_release = i          # ... and released on its own
                 continue
             if mode < 0.1:
                 idx = list(range(n))          # everything
